@@ -413,9 +413,8 @@ static void run_lanes(const vf::Args &args, Report &rep, const std::vector<Kerne
         struct Bad { int kernel = -1, lane = 0; uint64_t a[8], b[8]; } bad[T];
         uint64_t seeds[T];
         for (int t = 0; t < T; t++) seeds[t] = vf::mix64(args.seed, 0xCC00 + args.shard * 977 + t);
-#pragma omp parallel num_threads(T)
-        {
-            int me = omp_get_thread_num() % T;
+        vf::team(T, [&](int me_) {
+            int me = me_;
             Rng q(seeds[me]), cq(seeds[me] ^ 0x55);
             for (uint64_t t = 0; t < n; t++)
             {
@@ -429,7 +428,7 @@ static void run_lanes(const vf::Args &args, Report &rep, const std::vector<Kerne
                     if (bl >= 0 && bad[me].kernel < 0) { bad[me].kernel = (int)ki; bad[me].lane = bl; memcpy(bad[me].a, ca, sizeof ca); memcpy(bad[me].b, cb, sizeof cb); }
                 }
             }
-        }
+        });
         for (int t = 0; t < T; t++)
             if (bad[t].kernel >= 0)
                 rep.violation(std::string(prop) + ":" + K[bad[t].kernel].name + ":concurrent-callers:wrong-lane-value",
@@ -525,6 +524,10 @@ struct MatGen
             for (int i = 0; i < nstate; i++) state[i] = r.coin() ? g.pick(r) : r.next();
             break;
         }
+        case 6: // every coefficient below 2^32 (most of them near the top of that range), large states: 32x64-bit products whose high words add up past 2^32
+            for (int i = 0; i < ncoef; i++) coef[i] = m8 ? r.below(256) : (r.below(3) == 0 ? r.next() >> 32 : 0xFFFFFFFFULL - r.below(r.coin() ? 4 : 1 << 20));
+            for (int i = 0; i < nstate; i++) state[i] = r.below(3) == 0 ? g.pick(r) : (r.coin() ? r.next() | 0xFFFF000000000000ULL : PP - 1 - r.below(1ULL << 34));
+            break;
         default: // quotient-like states against 8-bit coefficients floor((2^64-1)/m)
             for (int i = 0; i < ncoef; i++) coef[i] = m8 ? r.below(256) : r.below(1 << 16);
             for (int i = 0; i < nstate; i++)
@@ -536,9 +539,9 @@ struct MatGen
         }
     }
 };
-static const char *MATFAM[] = {"uniform", "boundary", "band_directed", "three_times_5555", "quotient_like", "low_word_8bit_high_word_set"};
+static const char *MATFAM[] = {"uniform", "boundary", "band_directed", "three_times_5555", "quotient_like", "low_word_8bit_high_word_set", "coefficients_below_2^32"};
 
-static void mat_fail(Report &rep, const char *prop, const char *kernel, const char *family, int st, int pos, uint64_t got, uint64_t exp, const uint64_t *state, int nstate, const uint64_t *coef, int ncoef)
+static void mat_fail(Report &rep, const char *prop, const std::string &kernel, const char *family, int st, int pos, uint64_t got, uint64_t exp, const uint64_t *state, int nstate, const uint64_t *coef, int ncoef)
 {
     rep.violation(std::string(prop) + ":" + kernel + ":wrong-value",
                   J().str("kernel", kernel).str("family", family).i("state_index", st).i("position", pos).h("got", got).h("expected", exp)
@@ -558,13 +561,23 @@ static void run_mat4(const vf::Args &args, Report &rep)
     uint64_t Mu[144 + 4];
     for (uint64_t t = 0; t < n; t++)
     {
-        int fam = (int)(t % 6);
+        int fam = (int)(t % 7);
         uint64_t s[12];
         uint64_t coef[144];
-        bool m8 = (t / 6) % 2 == 1;
+        bool m8 = (t / 7) % 2 == 1;
         mg.fill(rng, fam, s, 12, coef, 144, m8, &band);
         uint64_t sc[12];
         for (int i = 0; i < 12; i++) sc[i] = orc::canon(s[i]);
+        // second pass (every third trial): the matrix at the same addresses with the same leading coefficients and other entries changed
+        for (int pass = 0; pass < (t % 3 == 0 ? 2 : 1); pass++)
+        {
+        const char *sfx = pass ? ":changed-matrix-at-the-same-address" : "";
+        if (pass)
+        {
+            for (int i = 4; i < 144; i++)
+                if (i >= 12 ? rng.coin() : rng.below(4) == 0) coef[i] = m8 ? rng.below(256) : (rng.coin() ? rng.next() : rng.next() >> 32);
+            rep.cls("forms:changed_matrix_at_the_same_address");
+        }
         int off = (int)(t % 4); // unaligned offset in elements
         memcpy(Ma, coef, sizeof coef);
         memcpy(Mu + off, coef, sizeof coef);
@@ -594,16 +607,16 @@ static void run_mat4(const vf::Args &args, Report &rep)
     {                                                                                                      \
         CALL;                                                                                              \
         V4::store(got, c);                                                                                 \
-        for (int i = 0; i < 4; i++) if (orc::canon(got[i]) != e4[i]) mat_fail(rep, prop, KN, MATFAM[fam], 0, i, got[i], e4[i], s, 12, coef, 12); \
+        for (int i = 0; i < 4; i++) if (orc::canon(got[i]) != e4[i]) mat_fail(rep, prop, std::string(KN) + sfx, MATFAM[fam], 0, i, got[i], e4[i], s, 12, coef, 12); \
     } while (0)
         CHK4("spmv_avx_4x12", Goldilocks::spmv_avx_4x12(c, a0, a1, a2, (El *)(Mu + off)));
         CHK4("spmv_avx_4x12_a", Goldilocks::spmv_avx_4x12_a(c, a0, a1, a2, (El *)Ma));
         if (m8) CHK4("spmv_avx_4x12_8", Goldilocks::spmv_avx_4x12_8(c, a0, a1, a2, (El *)(Mu + off)));
         {
             El d = Goldilocks::dot_avx(a0, a1, a2, (El *)(Mu + off));
-            if (orc::canon(d.fe) != edot) mat_fail(rep, prop, "dot_avx", MATFAM[fam], 0, 0, d.fe, edot, s, 12, coef, 12);
+            if (orc::canon(d.fe) != edot) mat_fail(rep, prop, std::string("dot_avx") + sfx, MATFAM[fam], 0, 0, d.fe, edot, s, 12, coef, 12);
             El d2 = Goldilocks::dot_avx_a(a0, a1, a2, (El *)Ma);
-            if (orc::canon(d2.fe) != edot) mat_fail(rep, prop, "dot_avx_a", MATFAM[fam], 0, 0, d2.fe, edot, s, 12, coef, 12);
+            if (orc::canon(d2.fe) != edot) mat_fail(rep, prop, std::string("dot_avx_a") + sfx, MATFAM[fam], 0, 0, d2.fe, edot, s, 12, coef, 12);
         }
         // the same kernels with the result register being one of the state registers (rotating which one)
         {
@@ -614,7 +627,7 @@ static void run_mat4(const vf::Args &args, Report &rep)
         __m256i x0 = a0, x1 = a1, x2 = a2;                                                                 \
         if (al == 0) { FN(x0, x0, x1, x2, MP); c = x0; } else if (al == 1) { FN(x1, x0, x1, x2, MP); c = x1; } else { FN(x2, x0, x1, x2, MP); c = x2; } \
         V4::store(got, c);                                                                                 \
-        for (int i = 0; i < 4; i++) if (orc::canon(got[i]) != e4[i]) mat_fail(rep, prop, KN ":result-is-a-state-register", MATFAM[fam], al, i, got[i], e4[i], s, 12, coef, 12); \
+        for (int i = 0; i < 4; i++) if (orc::canon(got[i]) != e4[i]) mat_fail(rep, prop, std::string(KN ":result-is-a-state-register") + sfx, MATFAM[fam], al, i, got[i], e4[i], s, 12, coef, 12); \
     } while (0)
             ALIAS4("spmv_avx_4x12", Goldilocks::spmv_avx_4x12, (El *)(Mu + off));
             ALIAS4("spmv_avx_4x12_a", Goldilocks::spmv_avx_4x12_a, (El *)Ma);
@@ -638,11 +651,12 @@ static void run_mat4(const vf::Args &args, Report &rep)
         __m256i b0 = a0, b1 = a1, b2 = a2;                                                                 \
         CALL;                                                                                              \
         V4::store(g12, b0); V4::store(g12 + 4, b1); V4::store(g12 + 8, b2);                                \
-        for (int i = 0; i < 12; i++) if (orc::canon(g12[i]) != e12[i]) mat_fail(rep, prop, KN, MATFAM[fam], 0, i, g12[i], e12[i], s, 12, coef, 144); \
+        for (int i = 0; i < 12; i++) if (orc::canon(g12[i]) != e12[i]) mat_fail(rep, prop, std::string(KN) + sfx, MATFAM[fam], 0, i, g12[i], e12[i], s, 12, coef, 144); \
     } while (0)
         CHK12("mmult_avx", Goldilocks::mmult_avx(b0, b1, b2, (El *)(Mu + off)));
         CHK12("mmult_avx_a", Goldilocks::mmult_avx_a(b0, b1, b2, (El *)Ma));
         if (m8) CHK12("mmult_avx_8", Goldilocks::mmult_avx_8(b0, b1, b2, (El *)(Mu + off)));
+        } // pass
         rep.cls(std::string("matfam:") + MATFAM[fam] + (m8 ? ":8bit" : ":full"));
         rep.nontrivial(vf::mix64(s[0] ^ s[5], coef[0] ^ coef[13] ^ t));
     }
@@ -653,9 +667,8 @@ static void run_mat4(const vf::Args &args, Report &rep)
         int bad[T];
         uint64_t seeds[T];
         for (int t = 0; t < T; t++) { bad[t] = 0; seeds[t] = vf::mix64(args.seed, 0x13CC + args.shard * 31 + t); }
-#pragma omp parallel num_threads(T)
-        {
-            int me = omp_get_thread_num() % T;
+        vf::team(T, [&](int me_) {
+            int me = me_;
             Rng q(seeds[me]);
             MatGen lg;
             for (uint64_t t = 0; t < nc; t++)
@@ -672,7 +685,7 @@ static void run_mat4(const vf::Args &args, Report &rep)
                 V4::store(g12, b0); V4::store(g12 + 4, b1); V4::store(g12 + 8, b2);
                 for (int i = 0; i < 12; i++) if (orc::canon(g12[i]) != e12[i]) bad[me] = m8 ? 3 : 2;
             }
-        }
+        });
         static const char *KNM[] = {"", "dot_avx", "mmult_avx", "mmult_avx_8"};
         for (int t = 0; t < T; t++)
             if (bad[t]) rep.violation(std::string(prop) + ":" + KNM[bad[t]] + ":concurrent-callers:wrong-value", J().str("kernel", KNM[bad[t]]).str("what", "8 threads calling the kernels at the same time on their own operands").done());
@@ -695,10 +708,10 @@ static void run_mat8(const vf::Args &args, Report &rep)
     uint64_t &bc_wrong = rep.counter("evidence:add_avx512_b_c_would_be_wrong_on_noncanonical_addend");
     for (uint64_t t = 0; t < n; t++)
     {
-        int fam = (int)(t % 6);
+        int fam = (int)(t % 7);
         uint64_t s[24]; // two states: s[0..11], s[12..23]
         uint64_t coef[144];
-        bool m8 = (t / 6) % 2 == 1;
+        bool m8 = (t / 7) % 2 == 1;
         mg.fill(rng, fam, s, 24, coef, 144, m8, &band);
         if ((t / 12) % 4 == 3) memcpy(s + 12, s, 12 * 8); // identical states
         if ((t / 12) % 4 == 2) for (int i = 0; i < 12; i++) s[12 + i] = rng.next(); // one directed, one random
@@ -733,6 +746,16 @@ static void run_mat8(const vf::Args &args, Report &rep)
                 }
             }
         }
+        // second pass (every third trial): the matrix at the same addresses with the same leading coefficients and other entries changed
+        for (int pass = 0; pass < (t % 3 == 0 ? 2 : 1); pass++)
+        {
+        const char *sfx = pass ? ":changed-matrix-at-the-same-address" : "";
+        if (pass)
+        {
+            for (int i = 4; i < 144; i++)
+                if (i >= 12 ? rng.coin() : rng.below(4) == 0) coef[i] = m8 ? rng.below(256) : (rng.coin() ? rng.next() : rng.next() >> 32);
+            rep.cls("forms:changed_matrix_at_the_same_address");
+        }
         uint64_t e[2][12], got[8], g24[24];
         __m512i c;
         for (int st = 0; st < 2; st++) o_spmv(e[st], sc[st], coef);
@@ -742,7 +765,7 @@ static void run_mat8(const vf::Args &args, Report &rep)
         CALL;                                                                                              \
         V8::store(got, c);                                                                                 \
         for (int st = 0; st < 2; st++) for (int i = 0; i < 4; i++)                                         \
-            if (orc::canon(got[4 * st + i]) != e[st][i]) mat_fail(rep, prop, KN, MATFAM[fam], st, i, got[4 * st + i], e[st][i], s + 12 * st, 12, coef, NCO); \
+            if (orc::canon(got[4 * st + i]) != e[st][i]) mat_fail(rep, prop, std::string(KN) + sfx, MATFAM[fam], st, i, got[4 * st + i], e[st][i], s + 12 * st, 12, coef, NCO); \
     } while (0)
         CHK8("spmv_avx512_4x12", Goldilocks::spmv_avx512_4x12(c, a0, a1, a2, (El *)coef), 12);
         if (m8) CHK8("spmv_avx512_4x12_8", Goldilocks::spmv_avx512_4x12_8(c, a0, a1, a2, (El *)coef), 12);
@@ -752,7 +775,7 @@ static void run_mat8(const vf::Args &args, Report &rep)
             for (int st = 0; st < 2; st++)
             {
                 uint64_t ed = o_dot(sc[st], coef);
-                if (orc::canon(d[st].fe) != ed) mat_fail(rep, prop, "dot_avx512", MATFAM[fam], st, 0, d[st].fe, ed, s + 12 * st, 12, coef, 12);
+                if (orc::canon(d[st].fe) != ed) mat_fail(rep, prop, std::string("dot_avx512") + sfx, MATFAM[fam], st, 0, d[st].fe, ed, s + 12 * st, 12, coef, 12);
             }
         }
         {
@@ -764,7 +787,7 @@ static void run_mat8(const vf::Args &args, Report &rep)
         if (al == 0) { FN(x0, x0, x1, x2, (El *)coef); c = x0; } else if (al == 1) { FN(x1, x0, x1, x2, (El *)coef); c = x1; } else { FN(x2, x0, x1, x2, (El *)coef); c = x2; } \
         V8::store(got, c);                                                                                 \
         for (int st = 0; st < 2; st++) for (int i = 0; i < 4; i++)                                         \
-            if (orc::canon(got[4 * st + i]) != e[st][i]) mat_fail(rep, prop, KN ":result-is-a-state-register", MATFAM[fam], st, i, got[4 * st + i], e[st][i], s + 12 * st, 12, coef, NCO); \
+            if (orc::canon(got[4 * st + i]) != e[st][i]) mat_fail(rep, prop, std::string(KN ":result-is-a-state-register") + sfx, MATFAM[fam], st, i, got[4 * st + i], e[st][i], s + 12 * st, 12, coef, NCO); \
     } while (0)
             ALIAS8("spmv_avx512_4x12", Goldilocks::spmv_avx512_4x12, 12);
             if (m8) ALIAS8("spmv_avx512_4x12_8", Goldilocks::spmv_avx512_4x12_8, 12);
@@ -786,11 +809,12 @@ static void run_mat8(const vf::Args &args, Report &rep)
         for (int st = 0; st < 2; st++) for (int j = 0; j < 3; j++) for (int i = 0; i < 4; i++)             \
         {                                                                                                  \
             uint64_t gv = g24[8 * j + 4 * st + i];                                                         \
-            if (orc::canon(gv) != e[st][4 * j + i]) mat_fail(rep, prop, KN, MATFAM[fam], st, 4 * j + i, gv, e[st][4 * j + i], s + 12 * st, 12, coef, 144); \
+            if (orc::canon(gv) != e[st][4 * j + i]) mat_fail(rep, prop, std::string(KN) + sfx, MATFAM[fam], st, 4 * j + i, gv, e[st][4 * j + i], s + 12 * st, 12, coef, 144); \
         }                                                                                                  \
     } while (0)
         CHK24("mmult_avx512", Goldilocks::mmult_avx512(b0, b1, b2, (El *)coef));
         if (m8) CHK24("mmult_avx512_8", Goldilocks::mmult_avx512_8(b0, b1, b2, (El *)coef));
+        } // pass
         rep.cls(std::string("matfam:") + MATFAM[fam] + (m8 ? ":8bit" : ":full"));
         rep.nontrivial(vf::mix64(s[0] ^ s[17], coef[0] ^ coef[13] ^ t));
     }
@@ -800,9 +824,8 @@ static void run_mat8(const vf::Args &args, Report &rep)
         int bad[T];
         uint64_t seeds[T];
         for (int t = 0; t < T; t++) { bad[t] = 0; seeds[t] = vf::mix64(args.seed, 0x14CC + args.shard * 31 + t); }
-#pragma omp parallel num_threads(T)
-        {
-            int me = omp_get_thread_num() % T;
+        vf::team(T, [&](int me_) {
+            int me = me_;
             Rng q(seeds[me]);
             MatGen lg;
             for (uint64_t t = 0; t < nc; t++)
@@ -821,7 +844,7 @@ static void run_mat8(const vf::Args &args, Report &rep)
                 for (int st = 0; st < 2; st++) for (int j = 0; j < 3; j++) for (int i = 0; i < 4; i++)
                     if (orc::canon(g24[8 * j + 4 * st + i]) != e[st][4 * j + i]) bad[me] = m8 ? 3 : 2;
             }
-        }
+        });
         static const char *KNM[] = {"", "dot_avx512", "mmult_avx512", "mmult_avx512_8"};
         for (int t = 0; t < T; t++)
             if (bad[t]) rep.violation(std::string(prop) + ":" + KNM[bad[t]] + ":concurrent-callers:wrong-value", J().str("kernel", KNM[bad[t]]).str("what", "8 threads calling the kernels at the same time on their own operands").done());
